@@ -144,19 +144,19 @@ def make_sub(rnd, ch_vals, bs, depth, force=None):
     return sub
 
 
-def stream_plan(rnd, pid, small=True):
+def stream_plan(rnd, pid, small=True, nframes=None, variable=None, size_pool=None):
     channels = rnd.choice([1, 1, 2, 2, 2, 3, 4, 5, 6, 7, 8])
     bps = rnd.choice([4, 5, 7, 8, 8, 12, 16, 16, 17, 20, 24, 24, 31, 32, 32])
     how = rnd.choice(["table", "khz", "hz", "tenhz", "si"])
     rate = {"table": rnd.choice(TABLE_RATES), "khz": 1000 * rnd.randint(1, 255), "hz": rnd.randint(1, 65535),
             "tenhz": 10 * rnd.randint(1, 65535), "si": rnd.choice([0, 1, 12347, 1048575, 44100])}[how]
     bpscode = "hdr" if bps in TABLE_BPS and rnd.random() < 0.7 else "si"
-    variable = rnd.random() < 0.3
-    nframes = rnd.randint(1, 3)
+    variable = (rnd.random() < 0.3) if variable is None else variable
+    nframes = rnd.randint(1, 3) if nframes is None else nframes
     if variable:
-        sizes = [rnd.choice([16, 17, 20, 31, 32, 192, 256] if small else [192, 576, 1152, 4096]) for _ in range(nframes)]
+        sizes = [rnd.choice(size_pool or ([16, 17, 20, 31, 32, 192, 256] if small else [192, 576, 1152, 4096])) for _ in range(nframes)]
     else:
-        b = rnd.choice([16, 18, 24, 32, 33, 64, 192, 256] if small else [192, 576, 1152, 4096, 4608])
+        b = rnd.choice(size_pool or ([16, 18, 24, 32, 33, 64, 192, 256] if small else [192, 576, 1152, 4096, 4608]))
         sizes = [b] * (nframes - 1) + [rnd.choice([b, max(1, b - rnd.randint(1, b - 1))])]
     total = sum(sizes)
     kinds = ["walk", "walk", "noise", "extremes", "ramp", "const"]
